@@ -4,7 +4,8 @@ import itertools
 
 from ..core import rule
 from ..index import AnalysisError, dotted, src, walk_no_nested, names_in
-from ..domains import Lin
+from ..domains import Lin, linform
+from ..cfg import eval3, UNK
 from ..symexec import SymExec
 from ..util import explore, mk_atoms
 from .slots import FRAG_NLA, FRAG_CHIC
@@ -261,6 +262,84 @@ def r4(ctx):
              key='scCHIC:strand')
     # trimmed / untrimmed relation: untrimmed = trimmed shifted one base into the read
     ctx.exhaustive['C09-R4'] = True
+
+
+@rule('C09', 'C09-R7', 'scCHIC paired-end acceptance is strand symmetric: whatever an inward pair must satisfy besides its orientation on one strand is the mirror '
+                       'image (start <-> end, order reversed) of what it must satisfy on the other strand')
+def r7(ctx):
+    f = ctx.fn(FRAG_CHIC, 'CHICFragment.identify_site')
+    top = f
+
+    def canon(c_, pol, mirror=False):
+        """canonical form of a coordinate comparison taken with polarity pol: (linear form d, strict) meaning d > 0 / d >= 0"""
+        if not (isinstance(c_, ast.Compare) and len(c_.ops) == 1 and isinstance(c_.ops[0], (ast.Lt, ast.LtE, ast.Gt, ast.GtE))):
+            return None
+        l_, r_ = linform(c_.left), linform(c_.comparators[0])
+        op = type(c_.ops[0])
+        if not pol:
+            op = {ast.Lt: ast.GtE, ast.LtE: ast.Gt, ast.Gt: ast.LtE, ast.GtE: ast.Lt}[op]
+        d = (r_ - l_) if op in (ast.Lt, ast.LtE) else (l_ - r_)
+        strict = op in (ast.Lt, ast.Gt)
+        if mirror:
+            swap = {}
+            for k_, v_ in d.coef.items():
+                k2 = k_.replace('reference_start', '\0').replace('reference_end', 'reference_start').replace('\0', 'reference_end')
+                swap[k2] = -v_
+            d = Lin(swap, -d.const)
+        return (str(d), strict)
+    rejected = {}
+    undecided = None
+    for rev in (True, False):
+        facts = {'R1.is_reverse': rev, 'R2.is_reverse': not rev, 'self.get_R2().is_reverse': not rev, 'self.has_R2()': True, 'R2.is_unmapped': False, 'self.get_R2().is_unmapped': False,
+                 'R1.is_unmapped': False, 'R1 is None': False, 'self.R2_primer_length': 0}
+        atoms = dict(facts)
+        for k_, v_ in list(facts.items()):
+            if isinstance(v_, bool):
+                atoms[f'not {k_}'] = not v_
+        se = SymExec(atoms, SYMBOLS, record=('set_rejection_reason',))
+        paths = set()
+        for st in se.run(f.body):
+            if not any(name == 'set_rejection_reason' and str(args.get(0)).strip("'\"") .endswith('orientation') or 'orientation' in str(args.get('src:0', '')) or 'orientation' in str(args)
+                       for name, args, guards, line in st.events):
+                continue
+            conj = set()
+            for gtxt, pol in st.guards:
+                try:
+                    gt = ast.parse(gtxt, mode='eval').body
+                except SyntaxError:
+                    undecided = gtxt
+                    continue
+                parts = gt.values if isinstance(gt, ast.BoolOp) and isinstance(gt.op, ast.And) else [gt]
+                res = []
+                for p_ in parts:
+                    v = eval3(p_, {}, lambda e: atoms.get(src(e), UNK))
+                    if v is UNK:
+                        res.append(p_)
+                if not res:
+                    continue
+                if len([x for x in res if any(a_ in src(x) for a_ in ('reference_start', 'reference_end'))]) > 1 and not pol:
+                    undecided = gtxt
+                    continue
+                for p_ in res:
+                    c_ = canon(p_, pol, mirror=rev)
+                    if c_ is None:
+                        # a test that is not a coordinate comparison (a tag, an option) does not distinguish the strands
+                        if any(a_ in src(p_) for a_ in ('reference_start', 'reference_end', 'is_reverse')):
+                            undecided = src(p_)
+                    else:
+                        conj.add(c_)
+            paths.add(frozenset(conj))
+        rejected[rev] = paths
+    if undecided:
+        ctx.emit('C09-R7', False, FRAG_CHIC, top, f'the rejection of an inward pair depends on `{undecided[:60]}` (not a coordinate comparison; not decided)', key='scCHIC:orientation-symmetric', undecided=True)
+        return
+    ok = rejected[True] == rejected[False]
+    if ok:
+        why = 'an inward pair is accepted on its orientation alone, on both strands' if not rejected[True] else f'inward pairs are rejected under mirror-image conditions on the two strands: {sorted(map(sorted, rejected[False]))}'
+    else:
+        why = (f'an inward pair is rejected under conditions that are not mirror images of each other: reverse R1 (mirrored) {sorted(map(sorted, rejected[True]))}, forward R1 {sorted(map(sorted, rejected[False]))}: '
+               'one orientation of a fragment is rejected where its mirror image is accepted')
+    ctx.emit('C09-R7', ok, FRAG_CHIC, top, 'scCHIC orientation test: ' + why, key='scCHIC:orientation-symmetric', what='scCHIC: paired-end acceptance differs between the two strands')
 
 
 META = {
